@@ -239,7 +239,10 @@ def do_scenario(arg):
             continue
         first = nm not in seen_p
         seen_p.add(nm)
-        for e in (ERRNOS[nm][:2] if first else ERRNOS[nm][:1]) if per_pos != "all" else ERRNOS[nm]:
+        # EINTR / EAGAIN are left out of the persistent kind: "interrupted - try again" is what they mean, libc itself retries on
+        # them (getlogin_r reading /proc/self/loginuid does), and a call that is interrupted every single time does not exist
+        lasting = [x for x in ERRNOS[nm] if x not in ("EINTR", "EAGAIN")]
+        for e in (lasting[:2] if first else lasting[:1]) if per_pos != "all" else lasting:
             evaluate(["%s:error=%s:when=%d+" % (nm, e, k)], "persistent-%s-%s" % (nm, e), 1)
             st["persistent"] = st.get("persistent", 0) + 1
     # sampled pairs
